@@ -5,14 +5,16 @@ From Verif Require Import GoSem Recv RecvSpec RecvProofs.
 
 (** ** One preservation lemma per operation (representation invariant, no panic) *)
 
-(** seqCounters.add: outside the one remaining defect situation (a number between two stored numbers,
-    [sc_between]; the jump past a full window was repaired in ffc392a) it never panics, keeps the
-    invariant and changes the live counters exactly as the list-level specification [spec_add] says. *)
-Theorem C17_counters_add_refines : forall s n,
-  sc_inv s -> sc_add_pre s n = true ->
+(** C17_counters_refine: seqCounters.add never panics, keeps the invariant and changes the live
+    counters exactly as the list-level specification [spec_add] says (count up, append as new
+    maximum and trim the window, insert at its place, ignore what is older than the window or
+    than everything stored). No precondition: the jump past a full window was repaired in
+    ffc392a, the insertion between two stored numbers in ddde9b0. *)
+Theorem C17_counters_refine : forall s n,
+  sc_inv s ->
   exists s', sc_add s n = Ok s' /\ sc_inv s' /\ sc_live s' = spec_add (sc_w s) (sc_live s) n /\ sc_w s' = sc_w s.
 Proof. exact sc_add_spec. Qed.
-Print Assumptions C17_counters_add_refines.
+Print Assumptions C17_counters_refine.
 
 Theorem C17_counters_drop_inv : forall s n,
   sc_inv s -> exists s', sc_drop s n = Ok s' /\ sc_inv s' /\ sc_w s' = sc_w s /\ sc_n s' <= sc_n s.
@@ -79,10 +81,9 @@ Print Assumptions C17_gen_start_inv.
 
 (** channel.receivedSegData for one complete segment: under [chan_pre] no panic, the invariant is
     kept, and an MPD is published only above latestSeqNr. The hypotheses that really remain in
-    [chan_pre] after the repairs 9e29b04, ffc392a, 502773f, 9aa9fdc: the number is a uint32
-    ([item_okb]); it does not fall between two stored numbers ([sc_between], finding
-    c17-counters-insert-overwrites); when the upload completes the measurement of the master track,
-    the duration is not 0 and the window timeShiftBufferDepthS*timescale/duration+1 is in (0, 2^32). *)
+    [chan_pre] after the repairs 9e29b04, ffc392a, 502773f, 9aa9fdc, ff19d12, ddde9b0: the number is
+    a uint32 ([item_okb]); when the upload completes the measurement of the master track, the window
+    timeShiftBufferDepthS*timescale/duration+1 is in (0, 2^32) (see C17_safe_window_refuted). *)
 Theorem C17_received_safe : forall c u,
   chan_inv c -> chan_pre c u = true ->
   exists o, chan_received c (up_name u) (up_item u) = Ok o /\ chan_inv (o_chan o)
@@ -142,26 +143,15 @@ Theorem C17_window : forall c,
 Proof. exact chan_window. Qed.
 Print Assumptions C17_window.
 
-(** ** Refutations that remain (each replayed on the real structs by the harness) *)
+(** ** Refutations that remain *)
 
-(** C17_safe as stated in the property (no arrival order stops the receiver) is false: two
-    consecutive master segments of duration 0 divide by masterSegDuration = 0 in the channel goroutine *)
-Theorem C17_safe_refuted :
-  exists c ups, chan_inv c /\ chan_run c ups = Panic "channel.receivedSegData:div".
-Proof. exact safe_refuted. Qed.
-Print Assumptions C17_safe_refuted.
-
-(** The counters are not the per-number upload counts: inserting 6 into [5,7] overwrites 5. *)
-Theorem C17_counters_refine_refuted :
-  exists s n s', sc_adds (sc_new 4) [5; 7] = Ok s /\ sc_inv s /\ sc_between s n = true /\
-                 sc_add s n = Ok s' /\ sc_live s = [(5, 1); (7, 1)] /\ sc_live s' = [(6, 1); (7, 1)].
-Proof. exact counters_refine_refuted. Qed.
-Print Assumptions C17_counters_refine_refuted.
-
-(** ... and with three entries it destroys the ordering (6 into [5,7,9] gives [6,7,7]) *)
-Theorem C17_insert_breaks_inv_refuted : exists s n s', sc_inv s /\ sc_add s n = Ok s' /\ ~ sc_inv s'.
-Proof. exact counters_insert_breaks_inv. Qed.
-Print Assumptions C17_insert_breaks_inv_refuted.
+(** what is left of "C17_safe is false" at model level: a start window that wraps to 0 in uint32
+    (timeShiftBufferDepth 65537 s, timescale 65535, one-tick segments); not reachable with the even
+    timescales of real tracks, so there is no replay for it *)
+Theorem C17_safe_window_refuted :
+  exists c ups, chan_inv c /\ chan_run c ups = Panic "segDataBuffer.add:index".
+Proof. exact safe_window_refuted. Qed.
+Print Assumptions C17_safe_window_refuted.
 
 (** a track that delivers its first segment after the start is never required: all preconditions
     hold, the MPD lists 1..2, the third registered track has no segment at all *)
@@ -174,6 +164,21 @@ Proof. exact late_track_refuted. Qed.
 Print Assumptions C17_late_track_refuted.
 
 (** ** Formerly refuted, now proved of the repaired code (the witnesses of the old refutations) *)
+
+(** C17_counters_refine_refuted / C17_insert_breaks_inv_refuted: 6 into [5,7] and into [5,7,9] (ddde9b0) *)
+Theorem C17_counters_insert_repaired :
+  exists s s' t t', sc_adds (sc_new 4) [5; 7] = Ok s /\ sc_add s 6 = Ok s' /\ sc_live s' = [(5, 1); (6, 1); (7, 1)] /\
+                    sc_adds (sc_new 8) [5; 7; 9] = Ok t /\ sc_add t 6 = Ok t' /\ sc_live t' = [(5, 1); (6, 1); (7, 1); (9, 1)].
+Proof. exact counters_insert_repaired. Qed.
+Print Assumptions C17_counters_insert_repaired.
+
+(** C17_safe_refuted (zero duration): two master segments of duration 0 no longer divide by zero (ff19d12) *)
+Theorem C17_zero_duration_repaired :
+  let c := chan_with [[0]] 30 [mkTrack 0 true true 90000] in
+  let ups := [mkUp 0 (mkItem 1 0 0 false); mkUp 0 (mkItem 2 0 0 false); mkUp 0 (mkItem 3 0 0 false)] in
+  run_pre c ups /\ exists c', chan_run c ups = Ok c' /\ negb (g_started (ch_gen c')) = true.
+Proof. exact zero_duration_repaired. Qed.
+Print Assumptions C17_zero_duration_repaired.
 
 (** C17_jump: full window [1,2,3,4], then 100 (ffc392a) *)
 Theorem C17_jump_repaired :
